@@ -34,6 +34,14 @@ MODPATH = {
 }
 
 
+def profile_name(uses):
+    """one woven copy of the crate per distinct set of in-place contracts"""
+    if not uses:
+        return 'plain'
+    import hashlib
+    return 'c_' + hashlib.sha1(' '.join(sorted(uses)).encode()).hexdigest()[:10]
+
+
 def parse_kv(line):
     d = {}
     for tok in line.split():
@@ -63,7 +71,7 @@ def load_kani_obligations():
                 kind=kv.get('kind', 'harness-contract'), mem_gb=float(kv.get('mem', '6')),
                 timeout_s=int(kv.get('timeout', '900')), fns=[], clause='', bounded=None, expect='pass',
                 known=None, contracts=kv.get('contracts') == 'yes', stubbing=kv.get('stubbing') == 'yes',
-                est_s=int(kv.get('est', '60')), profile=kv.get('profile', 'default'))
+                est_s=int(kv.get('est', '60')), uses=[])
             i += 1
             while i < len(lines):
                 l = lines[i].strip()
@@ -80,6 +88,8 @@ def load_kani_obligations():
                         o['expect'] = rest.strip()
                     elif tag == 'known':
                         o['known'] = rest.strip()
+                    elif tag == 'uses':
+                        o['uses'] += rest.split()
                     i += 1
                     continue
                 if l.startswith('//') or l.startswith('#['):
@@ -94,6 +104,8 @@ def load_kani_obligations():
                     o['name'] = mm.group(2)
                     o['harness'] = MODPATH[fn] + '::' + mm.group(2)
                 break
+            o['uses'] = sorted(set(o['uses']))
+            o['profile'] = profile_name(o['uses'])
             if 'name' not in o:
                 raise SystemExit('registry: @obl without harness in %s near line %d' % (fn, i))
             obls.append(o)
